@@ -157,12 +157,12 @@ pub struct SddRun {
 }
 
 pub fn run_sdd_history(ctx: &mut Ctx, cfg: &SddCfg, ops: &[Op], checks: &SddChecks) -> SddRun {
-    rsdd::verif::set_unique_table_capacity(cfg.uniq_cap);
+    crate::caps::set_unique(cfg.uniq_cap);
     let _ = rsdd::verif::take_counters();
     let mut builder = CompressionSddBuilder::new(cfg.vtree.to_rsdd());
     builder.set_compression(cfg.compress);
     let builder = builder;
-    rsdd::verif::set_unique_table_capacity(None);
+    crate::caps::set_unique(None);
     let b = &builder;
     let n = cfg.n;
     let mut walker = SddWalker::new(n);
